@@ -199,9 +199,11 @@ Definition mon_C13 (b : base) (te : Z * ev) : list alarm :=
       if zb fl then
         match aget (b_rets b) gid with
         | Some r => when (negb (lr_won r && (lr_i r =? i))) 1302 ++
-                    (* a live record that another party wrote must not exist when the claim is raised *)
+                    (* the claim rests on the claimant's own write: whatever is live now is that write or
+                       something written after it (the window between application and acknowledgement
+                       cannot be closed by any client; C03/C04 bound how long such a claim survives) *)
                     match live_val b (ic_key (cfg_of b i)) with
-                    | Some (_, v) => when (negb (sok_of b v && (sid_of b v =? i) && (tok_of b v =? tok_of b (lr_val r)))) 1303
+                    | Some (rl, v) => when ((rl <? lr_rev r) || ((rl =? lr_rev r) && negb (sok_of b v && (sid_of b v =? i) && (tok_of b v =? tok_of b (lr_val r))))) 1303
                     | None => []
                     end
         | None => [1302]
